@@ -10,7 +10,8 @@ for d in /verif/seeded/*/; do
   [ -n "$1" ] && [ "$1" != "$ID" ] && continue
   git checkout -q -- . ; git clean -qfd -e target
   FEAT=""; grep -q "test_phf" $d/seeded_demo.rs 2>/dev/null && FEAT="--features test_phf"
-  [ -f $d/demo.sh ] && cp $d/demo.sh $WT/demo.sh
+  [ -f $d/demo.sh ] && cp $d/demo.sh $WT/demo.sh && chmod +x $WT/demo.sh
+  for sub in $d/*/; do [ -d "$sub" ] && cp -r "$sub" $WT/; done
   cp $d/seeded_demo.rs strum_tests/tests/seeded_demo.rs
   cargo test -p strum_tests --offline $FEAT --test seeded_demo > /tmp/sv_${ID}_clean.log 2>&1; CLEAN=$?
   rm -f strum_tests/tests/seeded_demo.rs
